@@ -57,7 +57,7 @@ ACC_SOME = {
     ('ClassicalDeclarationStatement', 'name'): (AP, 'var_name always completes a NAME'),
     ('IODeclarationStatement', 'scalar_type'): (AP, 'an io declaration without array type has a scalar type'),
     ('IODeclarationStatement', 'name'): (AP, 'var_name always completes a NAME'),
-    ('ParenExpr', 'expr'): (AP, 'empty parentheses in expression position are a syntax error'),
+    ('ParenExpr', 'expr'): ('KF', 'C03-tuple-expr'),      # (`(())` parses without a diagnostic: the inner `()` is a TUPLE_EXPR, no typed-AST expression)
     ('AssignmentStmt', 'rhs'): (AP, 'a missing right-hand side is a syntax error'),
     ('AssignmentStmt', 'indexed_identifier'): (AP, 'the target of an ASSIGNMENT_STMT is IDENTIFIER or INDEXED_IDENTIFIER'),
     ('Include', 'file'): (AP, '`include` without a file path is a syntax error'),
